@@ -815,7 +815,9 @@ theorem finalize_history (ft : FloatText) (e : EW) (tr : String → Option Strin
   · cases hfin
   · split at hfin
     · cases hfin
-    · rename_i xml0 _ xml _
+    split at hfin
+    · cases hfin
+    · rename_i xml0 _ _ xml _
       dsimp only at hfin
       split at hfin
       · cases hfin
@@ -966,10 +968,11 @@ theorem addBlob_finalize_roundtrip (e0 e1 e' : EW) (data : Bytes) (b : BlobRef) 
       h64 pos r0 hreach
 
 /-- non-vacuity of the `finalize` theorems: on a well-formed page writer `EW.finalize` succeeds as
-    soon as the XML can be serialised, the caller's transformer accepts it and the result is at most
-    10 MiB (the writer refuses XML its own reader would refuse) -/
+    soon as the XML can be serialised, consists of characters XML can carry, the caller's transformer accepts
+    it and the result is at most 10 MiB (the writer refuses XML its own reader would refuse) -/
 theorem finalize_ok (ft : FloatText) (e : EW) (tr : String → Option String) (he : e.pw.Inv)
-    (x y : String) (hs : serializeRoot ft e.root e.pcs e.imgs e.exts = some x) (ht : tr x = some y)
+    (x y : String) (hs : serializeRoot ft e.root e.pcs e.imgs e.exts = some x)
+    (hchars : x.toList.all xmlChar = true) (ht : tr x = some y)
     (hsmall : (utf8 y).length ≤ 1024 * 1024 * 10) :
     ∃ e', EW.finalize ft e tr = .ok e' := by
   have hsmall' : ¬ ((utf8 y).length > 1024 * 1024 * 10) := by omega
@@ -992,7 +995,7 @@ theorem finalize_ok (ft : FloatText) (e : EW) (tr : String → Option String) (h
   have hp2 : p2.physicalPosition = l2p p2.abs.cur := pw_position p2 i2
   refine ⟨{ e with pw := p6.flush }, ?_⟩
   unfold EW.finalize
-  simp only [hs, ht, hsmall', e1, e2, Outcome.bind_ok, e4, e5, hp2, e6, Bool.not_true, Bool.false_eq_true,
+  simp only [hs, hchars, ht, hsmall', e1, e2, Outcome.bind_ok, e4, e5, hp2, e6, Bool.not_true, Bool.false_eq_true,
     if_false, Outcome.pure_eq]
 
 end BlobRT
